@@ -1,0 +1,24 @@
+//go:build verif
+
+// Contracts checked by /verif/gowp. This file contains comments only and is compiled only
+// with -tags verif.
+
+package definition
+
+// C18 (XRD roles): every rule of every role rendered for an XRD names exactly the XRD's API
+// group and only the composite's plural (with its status and finalizers subresources) or - only
+// when the XRD offers a claim - the claim's plural (likewise); every role is controlled by the XRD.
+
+//@ macro XRNAME(d, s) = s == d.Spec.Names.Plural || s == d.Spec.Names.Plural + "/status" || s == d.Spec.Names.Plural + "/finalizers"
+//@ macro CLAIMNAME(d, s) = d.Spec.ClaimNames != nil && (s == d.Spec.ClaimNames.Plural || s == d.Spec.ClaimNames.Plural + "/status" || s == d.Spec.ClaimNames.Plural + "/finalizers")
+
+//@ func definition.RenderClusterRoles
+//@ props C18
+//@ requires d != nil
+//@ ensures [C18:xrd-roles-name-only-the-xrd-group] forall j, k :: 0 <= j && j < len(result) && 0 <= k && k < len(result[j].Rules) ==>
+//@      len(result[j].Rules[k].APIGroups) == 1 && result[j].Rules[k].APIGroups[0] == d.Spec.Group
+//@ ensures [C18:xrd-roles-have-no-url-rules] forall j, k :: 0 <= j && j < len(result) && 0 <= k && k < len(result[j].Rules) ==> len(result[j].Rules[k].NonResourceURLs) == 0
+//@ ensures [C18:xrd-roles-name-only-composite-and-claim-resources] forall j, k, m :: 0 <= j && j < len(result) && 0 <= k && k < len(result[j].Rules) && 0 <= m && m < len(result[j].Rules[k].Resources) ==>
+//@      XRNAME(d, result[j].Rules[k].Resources[m]) || CLAIMNAME(d, result[j].Rules[k].Resources[m])
+//@ site meta.AddOwnerReference($o, $ref)
+//@   assert [C18:xrd-roles-controlled-by-the-xrd] $ref.UID == d.GetUID() && $ref.Controller != nil && *$ref.Controller
